@@ -11,7 +11,7 @@ int a_real_ldl(a_uint n, a_real *A)
         {
             Ac[c] -= Ac[i] * Ac[i] * A[(a_size)n * i + i];
         }
-        if (a_real_abs(Ac[c]) < A_REAL_MIN) { return A_FAILURE; }
+        if (!(a_real_abs(Ac[c]) >= A_REAL_MIN)) { return A_FAILURE; } /* also rejects a NaN pivot */
         for (r = c + 1; r < n; ++r)
         {
             a_real *const Ar = A + (a_size)n * r;
